@@ -398,7 +398,7 @@ func evalConstructorDeclareStmt(vm *r.VM, node *syntax.FunctionDeclareStmt) erro
 	}
 	// the constructor belongs to the module that defines the type: a predefined type or a
 	// type imported from a library / another module cannot be given a new one
-	if currentModule := vm.GetCurrentModule(); module == nil || currentModule == nil || module.GetID() != currentModule.GetID() {
+	if currentModule := vm.GetCurrentModule(); module == nil || currentModule == nil || module.GetID() != currentModule.GetID() || !moduleDefinesClass(currentModule, cmodel) {
 		return zerr.InvalidClassType(className.GetLiteral())
 	}
 
@@ -420,6 +420,17 @@ func evalConstructorDeclareStmt(vm *r.VM, node *syntax.FunctionDeclareStmt) erro
 	cmodel.SetConstructor(constructorLogic)
 
 	return nil
+}
+
+// moduleDefinesClass - whether the type itself (not just a local name bound to it, e.g.
+// 令T = <imported type>) has been defined by a 定义 statement of this module
+func moduleDefinesClass(module *r.Module, cmodel *value.ClassModel) bool {
+	for _, v := range module.GetAllExportValues() {
+		if cm, ok := v.(*value.ClassModel); ok && cm == cmodel {
+			return true
+		}
+	}
+	return false
 }
 
 // eval 创建XX：P1，P2，P3，...！
